@@ -462,6 +462,8 @@ def run(ctx, spec):
         root = os.path.join(ctx.scratch, f"c18-pack{i}")
         os.makedirs(os.path.join(root, "tmp"))
         fs = fsmon.MonFS(delay_seed=ctx.seed * 977 + i, delay_p=0.3, delay_max=0.004)
+        if i % 4 >= 2:
+            fs.listing_order = "creation"      # listings follow the (schedule-dependent) creation order
         paths = [os.path.join(root, "a.parq")] + ([os.path.join(root, "b.parq")] if two else [])
         tdfmt = os.path.join(root, "tmp", "t-{uuid}-{partition}") if i % 2 else None
         errs = []
@@ -488,6 +490,7 @@ def run(ctx, spec):
         ctx.count("concurrent_pack_runs")
         ctx.case(["pack_to_parquet", cfg], nontrivial=True)
         ctx.sig("pack_to_parquet", f"w{workers}", "two" if two else "one", "ext" if tdfmt else "inside",
+                "creation-ordered-listing" if fs.listing_order else "-",
                 "empty-outputs" if kout == 12 else "-")
         events_total += len(fs.events)
         orders.add(fsmon.thread_order_string(fs.events))
